@@ -164,6 +164,39 @@ fn async_history_family() {
 }
 
 stubs! {
+/// the same async function faked twice through the checked API: the latest value is in effect,
+/// the original poll code is back after drop
+fn async_refake_same_function() {
+    unsafe {
+        common();
+        sim::S.NE_ACT = 1;
+        sim::S.NJ_ACT = 2;
+        let fa = sib_a(1);
+        let pa = poll_addr(&fa);
+        let b0: [u8; sim::RLEN] = kani::any();
+        sim::register_entry(0, pa, 16, b0);
+        core::mem::forget(fa);
+        {
+            let mut inj = InjectorPP::new();
+            let r1 = crate::async_return!(111u32, u32);
+            let r2 = crate::async_return!(cell_u32(), u32);
+            let raw2 = r2.__verif_raw();
+            inj.when_called_async(crate::async_func!(sib_a(2), u32)).will_return_async(r1);
+            inj.when_called_async(crate::async_func!(sib_a(3), u32)).will_return_async(r2);
+            check_redirect(pa, raw2);
+            assert!(sim::live_jits() == 2 || sim::live_jits() == 1, "VERIF[C14,C12]: unexpected number of live trampolines after a re-fake");
+        }
+        let mut i = 0;
+        while i < 16 {
+            assert!(sim::ENT[0].bytes[i] == b0[i], "VERIF[C14,C02]: the original poll code is not back after the injector is gone");
+            i += 1;
+        }
+        assert!(sim::live_jits() == 0 && !lock_held(), "VERIF[C14,C12]: trampoline or guard not released after the injector is gone");
+    }
+}
+}
+
+stubs! {
 /// unit and large by-memory outputs: the generated function returns Ready(value) of that type
 fn async_outputs_unit_and_large() {
     unsafe {
